@@ -1,4 +1,5 @@
 """C17: XML reports are well-formed and agree with the run."""
+import collections
 import copy
 import itertools
 import json
@@ -6,30 +7,36 @@ import os
 import random
 import re
 import tempfile
+from concurrent.futures import ThreadPoolExecutor
 
 import runlib
 import tlc
 import worlds
 
-# character classes (XML 1.0 Char production) with representative members
+# character classes (labels of XmlReport!CharClasses) with members; which of
+# them XML 1.0 allows is XmlReport!LegalChar - nothing here knows
 CLASSES = {
     'plain': ['abc', 'x y'], 'markup': ['<&>"\'', '<a href="x">&amp;'], 'cdataend': [']]>'],
-    'newline': ['a\nb', 'a\tb\r\nc'], 'c0': ['\x01', '\x1b[0m', '\x08'], 'nul': ['\x00'],
+    'newline': ['a\nb', 'a\tb\r\nc'], 'c0': ['\x01', '\x1b[0m', '\x08', '\x0e', '\x1f'],
+    'vt_ff': ['\x0b', '\x0c', 'a\x0cb\x0b'], 'nul': ['\x00'],
     'del_c1': ['\x7f', '\x85'], 'surrogate': ['\ud800', '\udfff'],
-    'nonchar': ['￾', '￿'], 'astral': ['\U0001f600'], 'nonascii': ['\xe9€'],
+    'nonchar': ['\ufffe', '\uffff'], 'astral': ['\U0001f600'], 'nonascii': ['\xe9\u20ac'],
     'long': ['x' * 20000],
 }
-ILLEGAL = ['c0', 'nul', 'surrogate', 'nonchar']
-ILLEGAL_RE = re.compile('[^\t\n\r\x20-\ud7ff\ue000-\ufffd\U00010000-\U0010ffff]')
 NAME_POOL = [('plain', 'test_a{}'), ('plain', 'test_p_1.{}'), ('markup', 'test_<&>"{}'),
              ('plain', 'test{} with space'), ('nonascii', 'test_\xe9{}'), ('c0', 'test_\x01{}'),
-             ('surrogate', 'test_\ud800{}'), ('plain', 'test_{}.x.y')]
+             ('surrogate', 'test_\ud800{}'), ('plain', 'test_{}.x.y'), ('vt_ff', 'test_\x0c{}')]
 KINDS = ['pass', 'fail', 'error', 'skip_deco', 'skip_body', 'xfail', 'uxsuccess', 'subfail',
          'two_events', 'fail_cleanup', 'td_error', 'setup_error', 'odd_exc']
+# single code points: the C0 and DEL-C1 ranges one by one and both sides of every
+# boundary of the XML 1.0 Char production (XmlReport!XmlChar decides about them)
+PROBE_CPS = sorted(set(range(0x00, 0x20)) | set(range(0x7f, 0xa0)) |
+                   {0x9, 0xA, 0xD, 0x20, 0xD7FF, 0xD800, 0xDFFF, 0xE000, 0xFFFD, 0xFFFE, 0xFFFF,
+                    0x10000, 0x10FFFF})
 
 
 def make_case(cid, rng, kinds, msg_classes, name_mode):
-    tests, ids, illegal = {}, [], set()
+    tests, ids, name_classes = {}, [], {}
     for k, kind in enumerate(kinds):
         tid = 't%d' % (k + 1)
         t = copy.deepcopy(worlds.OUTCOMES[kind])
@@ -53,13 +60,10 @@ def make_case(cid, rng, kinds, msg_classes, name_mode):
                 t[ph] = setmsg(t[ph])
         if 'cleanups' in t:
             t['cleanups'] = [setmsg(c) for c in t['cleanups']]
-        if any(c in ILLEGAL for c in msg_classes) and kind not in ('pass', 'skip_deco', 'skip_body', 'xfail', 'uxsuccess'):
-            illegal |= {c for c in msg_classes if c in ILLEGAL}
         if name_mode == 'odd' or (name_mode == 'mixed' and rng.random() < 0.4):
             ncls, pat = NAME_POOL[(k + rng.randrange(len(NAME_POOL))) % len(NAME_POOL)]
             t['name'] = pat.format(k)
-            if ncls in ILLEGAL:
-                illegal.add(ncls)
+            name_classes[tid] = ncls
         tests[tid] = t
         ids.append(tid)
     # doctest cases next to the unittest ones
@@ -74,8 +78,6 @@ def make_case(cid, rng, kinds, msg_classes, name_mode):
                'error': '>>> raise ValueError("%s")\n' % lit}[kind]
         doctests[did] = {'name': rng.choice(['tests.doc_%d', 'tests.sub.doc_%d', 'tests.a.b.doc_%d']) % k,
                          'source': src, 'kind': 'doctest-' + kind}
-        if kind != 'pass':
-            illegal |= {c for c in msg_classes if c in ILLEGAL}
     half = max(1, len(ids) // 2)
     classes = {'TA': {'tests': ids[:half], 'layer': 'L1'}}
     if ids[half:]:
@@ -93,8 +95,107 @@ def make_case(cid, rng, kinds, msg_classes, name_mode):
         args.append('--buffer')
     if rng.random() < 0.3:
         args.append('-v')
-    return {'id': cid, 'world': world, 'args': args, 'repeat': rep, 'illegal': sorted(illegal),
+    return {'id': cid, 'world': world, 'args': args, 'repeat': rep, 'name_classes': name_classes,
             'msg_classes': list(msg_classes)}
+
+
+def make_probe_case(cid, rng, cp):
+    """one code point in every position a report takes text from: the message
+    of a failure and of an error, the traceback text of a failure and of an
+    error, the name of a failing and of a passing test"""
+    ch = chr(cp)
+    tests = {
+        't1': {'kind': 'fail', 'body': [{'a': 'fail', 'msg': 'pm a%sb' % ch}]},
+        't2': {'kind': 'error', 'body': [{'a': 'error', 'msg': 'pm c%sd' % ch}]},
+        't3': {'kind': 'fail', 'body': [{'a': 'fail', 'msg': 'plain', 'tb': 'fn_a%sb' % ch}]},
+        't4': {'kind': 'error', 'body': [{'a': 'error', 'msg': 'plain', 'tb': 'fn_c%sd' % ch}]},
+        't5': {'kind': 'fail', 'body': [{'a': 'fail', 'msg': 'plain'}], 'name': 'test_n%sf' % ch},
+        't6': {'kind': 'pass', 'name': 'test_n%sp' % ch},
+    }
+    world = {'id': cid, 'layers': {'L1': {'kind': 'class', 'bases': [], 'hooks': ['setUp', 'tearDown']}},
+             'layer_order': ['L1'], 'tests': tests,
+             'classes': {'TP': {'tests': ['t1', 't2', 't3', 't4', 't5', 't6'], 'layer': 'L1'}}}
+    args, rep = [], 1
+    r = rng.random()
+    if r < 0.2:
+        rep, args = 2, ['--repeat', '2']
+    elif r < 0.4:
+        args = ['--buffer']
+    elif r < 0.5:
+        args = ['-v']
+    f = 'tests.TP.xml'
+    return {'id': cid, 'world': world, 'args': args, 'repeat': rep, 'name_classes': {},
+            'msg_classes': ['U+%04X' % cp], 'text_classes': [],
+            'probes': [{'cp': cp, 'pos': p, 'file': f} for p in ('message', 'traceback', 'name')]}
+
+
+def make_fault_case(cid, rng, hook, how, rep):
+    """a layer whose setUp / tearDown fails (L2 sits on it); whether a test runs
+    is then not a matter of --repeat: every test is 'gated', its runs are counted"""
+    c = make_case(cid, rng, [rng.choice(KINDS) for _ in range(rng.randint(4, 7))],
+                  (rng.choice(['plain', 'markup', 'c0']),), 'plain')
+    w = c['world']
+    w.pop('doctests', None)
+    ids = list(w['tests'])
+    hooks = ['setUp', 'tearDown']
+    w['layers'] = {'L1': {'kind': 'class', 'bases': [], 'hooks': hooks, hook: how},
+                   'L2': {'kind': 'class', 'bases': ['L1'], 'hooks': hooks},
+                   'L3': {'kind': 'class', 'bases': [], 'hooks': hooks}}
+    w['layer_order'] = ['L1', 'L2', 'L3']
+    w['classes'] = {n: dict(tests=ids[i::4], **({'layer': l} if l else {}))
+                    for i, (n, l) in enumerate((('TA', 'L1'), ('TB', 'L2'), ('TC', 'L3'), ('TU', ''))) if ids[i::4]}
+    c['args'] = ['--repeat', '2'] if rep == 2 else []
+    c['repeat'] = rep
+    c['gated'] = True
+    c['msg_classes'] = c['msg_classes'] + ['layer-%s-%s' % (hook, how)]
+    return c
+
+
+BROKEN = {
+    # the exception's text goes into the report like any other message
+    'raises': 'raise ImportError("no module named <x> & \\x0b \\x00 \\x1b \\ud800 \\ufffe")\n',
+    'syntax': 'def broken(:\n    pass\n',
+    'badsuite': 'def test_suite():\n    return 42\n',
+}
+BROKEN_CLASSES = {'raises': ['plain', 'markup', 'vt_ff', 'nul', 'c0', 'surrogate', 'nonchar'],
+                  'syntax': ['plain'], 'badsuite': ['plain']}
+
+
+def make_import_case(cid, rng, broken, args, good=True):
+    """a project directory with the world's tests module (good=True) next to
+    package(s) whose tests module cannot be imported; the filters in args may
+    leave nothing but the import failure"""
+    c = make_case(cid, rng, ['pass', 'fail', 'error', 'pass'], ('plain',), 'plain')
+    w = c['world']
+    w.pop('doctests', None)
+    c['args'] = list(args)
+    c['repeat'] = 2 if '--repeat' in args else 1
+    c['cli'] = True
+    c['gated'] = True
+    c['project'] = {'good': good, 'broken': {m + '.tests': BROKEN[kind] for m, kind in broken}}
+    c['imports'] = [m + '.tests' for m, _ in broken]
+    c['import_classes'] = {m + '.tests': BROKEN_CLASSES[kind] for m, kind in broken}
+    c['msg_classes'] = ['import-failure'] + [k for _, k in broken]
+    return c
+
+
+def printable(ch):
+    return 0x20 <= ord(ch) <= 0x7e
+
+
+def carried(own, name):
+    """is `name` the test's own name (plus what unittest appends for a subtest)?
+    Every character outside printable ASCII may have been rendered by something
+    else (up to 8 characters); returns [[cp, [code points found there]]] or None.
+    Whether the rendering is admissible is Trace_Xml's business."""
+    if name == own or name.startswith(own + ' '):
+        return [[ord(ch), [ord(ch)]] for ch in own if not printable(ch)]
+    rx = ''.join(re.escape(ch) if printable(ch) else '(.{0,8}?)' for ch in own)
+    m = re.match('^' + rx + '( .*)?$', name, re.S)
+    if not m:
+        return None
+    odd = [ch for ch in own if not printable(ch)]
+    return [[ord(ch), [ord(x) for x in g]] for ch, g in zip(odd, m.groups())]
 
 
 def record(case, res, ref):
@@ -105,17 +206,22 @@ def record(case, res, ref):
             own[t] = ('tests.' + c, w['tests'][t].get('name', 'test_' + t))
     for did, d in w.get('doctests', {}).items():
         own[did] = (d['name'].rpartition('.')[0], d['name'].rpartition('.')[2])
-
-    def pattern(n):
-        # a character XML 1.0 cannot carry may be rendered by any short
-        # replacement; everything else must be there verbatim
-        return ''.join('.{0,8}' if ILLEGAL_RE.match(ch) else re.escape(ch) for ch in n)
+    imports = {m: 'i%d' % (k + 1) for k, m in enumerate(case.get('imports', []))}
 
     def resolve(cn, name):
+        if cn in imports:
+            return imports[cn], []
+        # the exact name first: a rendering of another test's odd character
+        # must not be mistaken for this one
         for t, (c, n) in own.items():
-            if cn == c and re.match('^' + pattern(n) + '( .*)?$', name, re.S):
-                return t
-        return '?'
+            if cn == c and (name == n or name.startswith(n + ' ')):
+                return t, carried(n, name)
+        for t, (c, n) in own.items():
+            if cn == c:
+                odd = carried(n, name)
+                if odd is not None:
+                    return t, odd
+        return '?', []
     files = []
     for f in res.get('xml_files', []):
         def num(x):
@@ -127,7 +233,8 @@ def record(case, res, ref):
         for c in f.get('cases', []):
             ch = [x for x in c['children'] if x in ('failure', 'error')]
             kind = 'both' if len(set(ch)) > 1 else (ch[0] if ch else 'none')
-            cases.append({'t': resolve(c['classname'], c['name']), 'kind': kind})
+            t, odd = resolve(c['classname'], c['name'])
+            cases.append({'t': t, 'kind': kind, 'odd': [{'cp': cp, 'got': got} for cp, got in odd]})
         files.append({'file': f['file'], 'wellformed': f['wellformed'],
                       'tests': num(f.get('attrs', {}).get('tests')),
                       'errors': num(f.get('attrs', {}).get('errors')),
@@ -136,40 +243,95 @@ def record(case, res, ref):
                       'nfailure': f.get('n_failure', -2), 'cases': cases})
     # which tests each report file holds, in execution order (class order / doctest order)
     suite_tests = {}
+    if not case.get('gated'):
+        for c, cs in w['classes'].items():
+            suite_tests['tests.%s.xml' % c] = list(cs['tests'])
+        for did, d in w.get('doctests', {}).items():
+            suite_tests.setdefault('%s.xml' % d['name'].rpartition('.')[0], []).append(did)
+    # how often each test was seen starting (observation; used for gated tests)
+    runs = collections.Counter(e.get('t') for e in res.get('events', [])
+                               if e.get('e') == 'T' and e.get('ph') == 'setUp')
+    listed = (res.get('report') or {}).get('import_problems', [])
+    # the character classes that went into the texts of each file (labels by construction)
+    text_classes = case.get('text_classes', [c for c in case['msg_classes'] if c in CLASSES and c != 'long'])
+    file_classes = {}
     for c, cs in w['classes'].items():
-        suite_tests['tests.%s.xml' % c] = list(cs['tests'])
+        file_classes['tests.%s.xml' % c] = sorted(set(text_classes) | {
+            case['name_classes'][t] for t in cs['tests'] if t in case.get('name_classes', {})})
     for did, d in w.get('doctests', {}).items():
-        suite_tests.setdefault('%s.xml' % d['name'].rpartition('.')[0], []).append(did)
-    return {'id': case['id'], 'repeat': case['repeat'], 'illegal': case['illegal'],
+        file_classes['%s.xml' % d['name'].rpartition('.')[0]] = sorted(text_classes)
+    for m in imports:
+        file_classes[m + '.xml'] = sorted(case['import_classes'][m])
+    return {'id': case['id'], 'repeat': case['repeat'], 'fileClasses': file_classes or {'_': []},
+            'probes': case.get('probes', []),
+            'imports': [{'t': t, 'module': m, 'reported': m in listed} for m, t in imports.items()],
             'suiteTests': suite_tests or {'_': []},
-            'tests': [{'t': t, 'ref': ref['ev'].get(t, [])} for t in own],
+            'tests': [{'t': t, 'ref': ref['ev'].get(t, []), 'gated': bool(case.get('gated')),
+                       'runs': runs.get(t, 0)} for t in own],
             'files': files, 'crashed': res.get('crashed', '') or ''}
 
 
+DEVIATIONS = ('SubTestIdentity', 'CountDistinctTests', 'RawSerializer', 'ReportOnlyIfRan',
+              'KeepPythonWhitespace')
+
+
+def model_check(tier):
+    """the XmlReport configurations, side by side (they are small)"""
+    cfgs = ['XmlReport_design'] + ['XmlReport_dev_' + d for d in DEVIATIONS]
+    if tier != 'quick':
+        cfgs.append('XmlReport_chars')
+    with ThreadPoolExecutor(max_workers=len(cfgs)) as ex:
+        return list(zip(cfgs, ex.map(lambda c: tlc.run('XmlReport', c, workers=4, timeout=900), cfgs)))
+
+
+def make_project(d, project):
+    proj = os.path.join(d, 'proj')
+    os.makedirs(proj)
+    for fn in ('tests.py', 'worldlib.py', 'zzmod.py'):
+        if fn != 'tests.py' or project['good']:
+            os.symlink(os.path.join(runlib.WORLD_DIR, fn), os.path.join(proj, fn))
+    for mod, src in project['broken'].items():
+        pkg, _, leaf = mod.rpartition('.')
+        pd = os.path.join(proj, *pkg.split('.'))
+        os.makedirs(pd)
+        with open(os.path.join(pd, '__init__.py'), 'w'):
+            pass
+        with open(os.path.join(pd, leaf + '.py'), 'w') as f:
+            f.write(src)
+    return proj
+
+
 def run(chk, tier, seed, replay=None):
-    chk.rule = ('(1) TLC: XmlReport.tla - the recording machine (_record / writeXMLReports) for 2 tests x '
-                '11 outcome sequences x 2 classes x --repeat 2: attributes = element counts, every passing '
-                'test once per iteration, every bad event a testcase of its own test with the right child; '
-                'the serialiser table maps every character class sequence <= 3 to something XML 1.0 allows; '
-                'three deviation configs give counterexamples. (2) real in-process --xml runs: 13 outcome '
+    chk.rule = ('(1) TLC: XmlReport.tla - the recording machine (import failures recorded at find time / _record / '
+                'writeXMLReports) for 2 tests x 11 outcome sequences x 2 classes x every subset selected by the filters '
+                'x 0..1 test modules that fail to import x --repeat 2: attributes = element counts, every passing '
+                'test once per iteration, every bad event a testcase of its own test with the right child, every import '
+                'failure a testcase of its module with an error child even when no test ran; the character-class table is '
+                'a partition of the code points into ranges none of which straddles a boundary of the XML 1.0 Char '
+                'production (XmlChar over integers), and the serialiser maps every class sequence <= 3 to something XML 1.0 '
+                'allows; five deviation configs give counterexamples. (2) real --xml runs: 13 outcome '
                 'kinds (failing subtests, unexpected successes, two-event tests, decorator skips) and passing / failing / raising doctest cases x messages '
-                'built from 12 character classes (markup, ]]>, newlines, C0 controls, NUL, DEL/C1, lone '
+                'built from 13 character classes (markup, ]]>, newlines, C0 controls, VT/FF, NUL, DEL/C1, lone '
                 'surrogates, U+FFFE/F, astral, non-ASCII, 20 kB) x odd test names (dots, spaces, markup, '
-                'non-ASCII, control characters) x --repeat / --buffer, in-process and with the layers in subprocesses (-j N, resume: each process writes its own files); every report file is parsed with '
-                'expat and TLC compares it with the recorded run; distinct = distinct (kinds, classes, names, options)')
-    chk.assumptions += ['the Unicode range is covered by class partition (one or two members per class)',
-                        'doctest cases are DocTestCase objects built from generated sources (DocFileCase / manuel are not generated)']
+                'non-ASCII, control characters) x --repeat / --buffer, in-process and with the layers in subprocesses (-j N, resume: each process writes its own files); '
+                'every code point U+0000-U+001F and U+007F-U+009F and both sides of every boundary of the Char production (%d code points), each one alone '
+                'in a message, in the traceback text and in a test name; layers whose setUp / tearDown fails (with --repeat); '
+                'projects with test modules that cannot be imported (raising, syntax error, bad test_suite) under -m / -t filters that select '
+                'nothing else, -j 2, --repeat, and runs that select nothing at all; every report file is parsed with '
+                'expat and TLC compares it with the recorded run; distinct = distinct (kinds, classes, names, options)'
+                % len(PROBE_CPS))
+    chk.assumptions += ['outside U+0000-U+001F / U+007F-U+009F and the boundaries of the Char production the Unicode range is covered by class partition (one or two members per class)',
+                        'doctest cases are DocTestCase objects built from generated sources (DocFileCase / manuel are not generated)',
+                        'an error of a layer (setUp / tearDown) is not an error of a test: whether it shows up in a report is a don\'t-care; '
+                        'a run that selected nothing and reported nothing may write no file or empty reports']
     rng = random.Random(seed * 7919 + 17)
+    mc = None
+    pool = ThreadPoolExecutor(max_workers=1)
     if replay:
         with open(replay) as f:
             cases = [json.load(f)['case']]
     else:
-        chk.add_tlc('XmlReport_design', tlc.run('XmlReport', 'XmlReport_design', timeout=900))
-        for dev in ('SubTestIdentity', 'CountDistinctTests', 'RawSerializer'):
-            res = tlc.run('XmlReport', 'XmlReport_dev_' + dev, timeout=600)
-            chk.add_tlc('dev_' + dev, res, expect_ok=False)
-            if not (res.violation or 'is equal to FALSE' in res.out):
-                chk.machinery('deviation config %s did not produce a counterexample' % dev)
+        mc = pool.submit(model_check, tier)      # TLC works while the real runs are made
         cases = []
         cl = list(CLASSES)
         singles = [(c,) for c in cl]
@@ -179,12 +341,22 @@ def run(chk, tier, seed, replay=None):
         plan += [(p, 'mixed') for p in (rng.sample(pairs, 40) if tier == 'quick' else pairs)]
         if tier != 'quick':
             plan = plan * 6 + [(tuple(rng.sample(cl, 3)), 'mixed') for _ in range(1500)]
-        for mc, nm in plan:
+        for mcl, nm in plan:
             kinds = [rng.choice(KINDS) for _ in range(rng.randint(2, 5))]
             if 'subfail' not in kinds and rng.random() < 0.3:
                 kinds.append('subfail')
             n += 1
-            cases.append(make_case('x%d' % n, rng, kinds, mc, nm))
+            cases.append(make_case('x%d' % n, rng, kinds, mcl, nm))
+        # every code point of the control ranges and of the boundaries of Char, one world each
+        for cp in PROBE_CPS:
+            n += 1
+            cases.append(make_probe_case('x%d' % n, rng, cp))
+        # layers whose setUp / tearDown fails
+        for hook, how, rep in [('setUp', 'raise', 1), ('setUp', 'raise', 2), ('tearDown', 'raise', 1),
+                               ('tearDown', 'raise', 2), ('setUp', 'KeyError', 1), ('tearDown', 'ValueError', 2)] \
+                * (1 if tier == 'quick' else 10):
+            n += 1
+            cases.append(make_fault_case('x%d' % n, rng, hook, how, rep))
         # layers run in subprocesses (-j N, or resumed after layers that cannot be torn down)
         for k in range(10 if tier == 'quick' else 120):
             n += 1
@@ -204,6 +376,18 @@ def run(chk, tier, seed, replay=None):
                     l['tearDown'] = 'notimpl'
             c['cli'] = True
             cases.append(c)
+        # test modules that cannot be imported; filters that leave nothing else / nothing at all
+        one = [('broken', 'raises')]
+        for broken, args, good in [
+                (one, [], True), (one, ['-m', 'broken'], True), (one, ['-t', 'no_such_test_zz'], True),
+                (one, ['--repeat', '2'], True), (one, ['-j', '2'], True), (one, [], False),
+                (one, ['-m', 'broken', '--repeat', '2'], True), (one, ['-t', 'no_such_test_zz', '-j', '2'], True),
+                ([('broken', 'syntax'), ('other', 'badsuite')], ['-t', 'no_such_test_zz'], True),
+                ([('broken', 'badsuite')], ['-m', 'broken'], True), ([('broken', 'syntax')], ['-m', 'broken', '-vv'], False),
+                ([], ['-t', 'no_such_test_zz'], True), ([], ['-m', 'no_such_module_zz'], True),
+                ([], ['-t', 'no_such_test_zz', '--repeat', '2'], True)]:
+            n += 1
+            cases.append(make_import_case('x%d' % n, rng, broken, args, good))
         # every kind alone and in pairs with plain messages (agreement clauses)
         for kinds in [[k] for k in KINDS] + [list(p) for p in itertools.product(KINDS, repeat=2)]:
             n += 1
@@ -211,23 +395,36 @@ def run(chk, tier, seed, replay=None):
     refs = runlib.compute_refs([c['world'] for c in cases])
     jobs = [{'id': c['id'], 'world': c['world'], 'args': c['args'], 'xml': True, 'stdout_kind': 'file'}
             for c in cases if not c.get('cli')]
-    inres = iter(runlib.run_inproc_many(jobs))
     # runs whose layers execute in subprocesses: every process writes its own reports
     import tempfile as _tf
     import inproc_worker
 
     def cli_one(c):
         d = _tf.mkdtemp(prefix='xmlcli-', dir=runlib.scratch_root())
-        r = runlib.run_cli(c['world'], c['args'] + ['--xml', os.path.join(d, 'xml')], keep_dir=d, timeout=120)
+        proj = make_project(d, c['project']) if c.get('project') else None
+        # (like the in-process runs: a stdout that can take any character - what a
+        # strict UTF-8 pipe does with a lone surrogate is not this property's business)
+        r = runlib.run_cli(c['world'], c['args'] + ['--xml', os.path.join(d, 'xml')], keep_dir=d, timeout=120,
+                           path_dir=proj, env_extra={'PYTHONIOENCODING': 'utf-8:backslashreplace'})
         r['xml_files'] = inproc_worker.read_xml_reports(os.path.join(d, 'xml'))
         r['crashed'] = '' if r['rc'] in (0, 1) and 'Traceback (most recent call last)' not in r['stderr'] \
             else 'rc=%s' % r['rc']
         return r
-    from concurrent.futures import ThreadPoolExecutor
     with ThreadPoolExecutor(max_workers=8) as ex:
-        clires = iter(list(ex.map(cli_one, [c for c in cases if c.get('cli')])))
+        clifuts = [ex.submit(cli_one, c) for c in cases if c.get('cli')]
+        inres = iter(runlib.run_inproc_many(jobs))
+        clires = iter([f.result() for f in clifuts])
     results = [next(clires) if c.get('cli') else next(inres) for c in cases]
     recs = [record(c, r, ref) for c, r, ref in zip(cases, results, refs)]
+    if mc is not None:
+        for cfg, res in mc.result():
+            if cfg.startswith('XmlReport_dev_'):
+                chk.add_tlc(cfg[len('XmlReport_'):], res, expect_ok=False)
+                if not (res.violation or 'is equal to FALSE' in res.out):
+                    chk.machinery('deviation config %s did not produce a counterexample' % cfg)
+            else:
+                chk.add_tlc(cfg, res)
+    pool.shutdown()
     si = min(20, len(cases) - 1)
     chk.sample({'world': cases[si]['world'], 'args': cases[si]['args'], 'files': recs[si]['files']})
     fd, path = tempfile.mkstemp(prefix='verif-xml-', suffix='.json')
@@ -240,6 +437,7 @@ def run(chk, tier, seed, replay=None):
     chk.add_tlc('Trace_Xml', tres)
     verdicts = {m[1]: (m[2], m[3]) for m in tlc.printed_tuples(tres.out, 'XML')}
     nfiles = 0
+    seen = collections.Counter()
     for c, r, rec in zip(cases, results, recs):
         v = verdicts.get(c['id'])
         if v is None:
@@ -247,6 +445,10 @@ def run(chk, tier, seed, replay=None):
             continue
         chk.traces += 1
         nfiles += len(rec['files'])
+        seen['probe_worlds'] += bool(c.get('probes'))
+        seen['import_failures_reported'] += sum(i['reported'] for i in rec['imports'])
+        seen['runs_without_any_test'] += bool(c.get('project')) and not any(t['runs'] for t in rec['tests'])
+        seen['layer_fault_worlds'] += bool(c.get('gated')) and not c.get('project')
         chk.nontrivial.add(json.dumps([[t.get('kind') for t in c['world']['tests'].values()],
                                        c['msg_classes'], c['args'],
                                        [t.get('name', '') for t in c['world']['tests'].values()]]))
@@ -260,5 +462,6 @@ def run(chk, tier, seed, replay=None):
                           % (clause, arg, [t.get('kind') for t in c['world']['tests'].values()],
                              c['msg_classes'], c['args']),
                           {'case': c, 'record': rec, 'xml_files': r.get('xml_files'),
-                           'crash_tb': r.get('crash_tb', '')})
+                           'crash_tb': r.get('crash_tb', ''), 'stdout': (r.get('stdout') or '')[-3000:]})
     chk.extra['report_files_parsed'] = nfiles
+    chk.extra.update(seen)
